@@ -36,3 +36,4 @@ def run(ctx, rep):
     more6.rule_alloc_range(mod, rep, floor=20, sel=lambda f: re.match(r"sp_[sdcz]|[sdcz]langs$|[sdcz]Copy|[sdcz]CompRow|[sdcz]gstrs$|[sdcz]gsrfs$|[sdcz]gscon$|[sdcz]PivotGrowth$", f.name) is not None)
     more6.rule_precision_family(mod, rep, floor=20, sel=lambda f: re.match(r"sp_[sdcz]|[sdcz]langs$|[sdcz]Copy|[sdcz]CompRow|[sdcz]Create|[sdcz]gstrs$", f.name) is not None)
     more6.rule_quick_return(mod, rep)
+    more6.rule_snode_ld(mod, rep, pats=("sp_?trsv",))
